@@ -54,6 +54,30 @@ CLAIMS = {
                  'The group algebra and wrong-old-value behaviour are not decided.',
          'note': TB,
          'technique': 'zone bounds at the accept site + constant propagation + shared-state census'},
+ 'C13': {'text': 'Decides (necessary) on code the baseline never compiles: CL03 verification accepts only through the equation comparison, the lower bound on e and a comparison of every attribute with 2^lm (excludes the shift-by-e forgeries); '
+                 'decides (complete given next_prime) that the issued e leaves the generate-and-test loop only with 2^(le-1) < e < 2^le and gcd(e, phi) = 1. The modular algebra is not decided.',
+         'note': TB + 'CL03 is analysed under a build configuration (system GMP + header shim) only rustc\'s front end sees.',
+         'technique': 'MIR control-dependence gates + loop-exit condition extraction'},
+ 'C14': {'text': 'Decides (necessary): blind_sign touches the secret key only after verify_proof == true on the values it signs; verify_proof is gated by every sub-proof; each per-attribute commitment is built over the base its proof uses; '
+                 'carried commitments are equated; every serialised ZKPoK leaf influences a comparison (known finding: commitment randomness). Unblinding algebra is not decided.',
+         'note': TB,
+         'technique': 'dominance of secret-key uses by the verifier edge, sibling contradiction rule, gates'},
+ 'C15': {'text': 'Decides (necessary): challenge equality depends on all nine responses, four commitment values, keys, bases, revealed attributes and count; Ce and each per-attribute commitment are equated with their range proofs; '
+                 'every serialised leaf influences a comparison (known finding: commitment randomness). Completeness / soundness algebra is not decided.',
+         'note': TB,
+         'technique': 'must-flow into the challenge hash + control-dependence gates + leaf coverage'},
+ 'C16': {'text': 'Decides (necessary): acceptance is gated by E\' == E^(2^T), both decomposition equalities, both proofs of square and both larger-interval proofs, and the commitment carried by each proof of square is equated with E_a_1 / E_b_1 (transplant defect). Completeness for in-range values is not decided.',
+         'note': TB,
+         'technique': 'control-dependence gates + carried-commitment equality (contradiction rule)'},
+ 'C17': {'text': 'Decides completely the structural reading: enumerates the leaves the resolved Serialize impls of both proof types emit; none may be a commitment opening. Seven are emitted today (known findings). Computational hiding is not decided.',
+         'note': TB,
+         'technique': 'type / serde reachability over resolved impl bodies'},
+ 'C18': {'text': 'Decides (complete given rug contracts): loop-exit conditions of both safe-prime searches, p = 2p\'+1 shape, quadratic-residue construction and acceptance test of b, c, a_i, h, g_i = h^f with > 1 / gcd test before storing, exact bit length of random_bits, rand_int shape, thread_rng seeding. Primality itself and codec round trips are not decided.',
+         'note': TB,
+         'technique': 'loop-exit gate extraction + provenance / construction-shape checks on MIR'},
+ 'C19': {'text': 'Decides completely the two quotient conditions the property names by bit-length arithmetic over the MIR for the three suites: mask_bits >= 256 + 65 for every response (N1) and denominator mask dominating its product for factor-related pairs (N2). 3 + 2 violations exist today (known findings).',
+         'note': TB + 'random_bits(n) yields exactly n bits (checked under C18).',
+         'technique': 'bit-length abstract interpretation of rug Integer expressions'},
 }
 
 NOT_APPLICABLE = {}
